@@ -27,6 +27,7 @@ HRES = ("colvar {\n  name d\n  distancePairs {\n    group1 { atomNumbers 1 2 }\n
         "  refHistogram 0.125 0.125 0.125 0.125 0.125 0.125 0.125 0.125\n}\n")
 RUNAVE = cv("x", 1, "  runAve on\n  runAveLength 3\n  runAveStride 1\n")
 CORR = cv("x", 1, "  corrFunc on\n  corrFuncType coordinate\n  corrFuncLength 2\n  corrFuncStride 1\n  corrFuncOffset 0\n")
+CORR1 = CORR.replace("corrFuncOffset 0", "corrFuncOffset 1")
 OPES = cv("x", 1, GRIDCV) + ("opes_metad {\n  name o\n  colvars x\n  newHillFrequency 2\n  barrier 10\n  gaussianSigma 0.5\n}\n")
 OPESAD = cv("x", 1, GRIDCV) + ("opes_metad {\n  name o\n  colvars x\n  newHillFrequency 2\n  barrier 10\n  adaptiveSigma on\n"
                                "  adaptiveSigmaStride 4\n}\n")
@@ -51,6 +52,7 @@ ENTRIES = [
     ("colvar.corrFuncStride", CORR, ["colvar"], "corrFuncStride", 3),
     ("colvar.corrFuncLength", CORR, ["colvar"], "corrFuncLength", 3),
     ("colvar.corrFuncOffset", CORR, ["colvar"], "corrFuncOffset", 3),
+    ("colvaroff1.corrFuncLength", CORR1, ["colvar"], "corrFuncLength", 3),
     ("coordnum.pairListFrequency", COORD, ["colvar", "coordnum"], "pairListFrequency", 3),
     ("bias.timeStepFactor", CVTSF, ["harmonic"], "timeStepFactor", 3),
     ("bias.outputFreq", HIST, ["histogram"], "outputFreq", 3),
@@ -124,6 +126,7 @@ MODEL = {
     "colvar.corrFuncStride": ("colvar", dict(_R, corr="on", cflen="2", cfstride="1", cfoff="0"), "cfstride"),
     "colvar.corrFuncLength": ("colvar", dict(_R, corr="on", cflen="2", cfstride="1", cfoff="0"), "cflen"),
     "colvar.corrFuncOffset": ("colvar", dict(_R, corr="on", cflen="2", cfstride="1", cfoff="0"), "cfoff"),
+    "colvaroff1.corrFuncLength": ("colvar", dict(_R, corr="on", cflen="2", cfstride="1", cfoff="1"), "cflen"),
     "coordnum.pairListFrequency": ("coordnum", dict(tol="on", freq="2"), "freq"),
     "bias.timeStepFactor": ("bias", dict(_R, btsf="2"), "btsf"),
     "bias.outputFreq": ("bias", dict(_R, outfreq="2"), "outfreq"),
